@@ -1,6 +1,6 @@
 from ._muxprops import make, COMMON_RULE
 
-SPEC = make("C05", "Properties.C05", ['C05_eof_means_all', 'C05_eof_reachable', 'C05_write_after_close', 'C05_empty_write'],
+SPEC = make("C05", "Properties.C05", ['C05_eof_means_all', 'C05_eof_reachable', 'C05_write_after_close', 'C05_empty_write', 'C05_shutdown_projects', 'C05_finish_projects'],
             [("pair", "single", 0.5), ("pair", "drop", 0.25), ("pair", "end", 0.25)],
             COMMON_RULE + "For this property additionally: single-flow scripts (one established stream, then only reads / "
             "plain, vectored and empty writes / shutdowns and message-by-message deliveries, 40-120 labels) whose read and "
